@@ -14,7 +14,7 @@ Flavours (what the inputs concentrate on): 'mix', 'flow', 'settings', 'life', 'p
 import json
 import random
 
-from . import driver, replay
+from . import absn, driver, replay
 
 REQ_OK = ['req_get', 'req_head', 'req_post_cl3', 'req_post_cl0', 'req_get_b', 'req_host_only', 'req_cookies', 'req_str',
           'req_te_ok', 'req_connect_proto']
@@ -728,6 +728,87 @@ class G:
             opts.append((0.3, lambda: {'t': 'GOAWAY', 'last': r.choice([0, 1, 7]), 'code': r.choice([0, 2]), 'tag': r.choice(['-', 'A'])}))
         return r.choices([o[1] for o in opts], [o[0] for o in opts])[0]()
 
+    # ------------------------------------------------------------ header blocks given as octets
+    def fuzz_block(self, x, fr):
+        """Replace the block of a HEADERS / PUSH_PROMISE frame by octets drawn from the HPACK grammar (RFC 7541), including
+        what a decoder must refuse: index 0, an index beyond the tables, an over-long integer, a string that runs off the end,
+        invalid Huffman octets.  Only representations that leave the dynamic table alone are used (indexed static fields,
+        literals without indexing / never indexed), so what the block decodes to does not depend on the connection: a fresh
+        decoder of the hpack library says whether it decodes and to which fields, and that is logged with the frame
+        (`hx`, `blk`), like the block length of a sent block.  What h2 makes of the block is the specification's business."""
+        r = self.rng
+
+        def hint(v, bits, flags=0, overlong=False):
+            mx = (1 << bits) - 1
+            if v < mx and not overlong:
+                return bytes([flags | v])
+            out = [flags | mx]
+            v -= min(v, mx)
+            while v >= 128:
+                out.append((v % 128) | 0x80)
+                v //= 128
+            out.append(v)
+            if overlong:
+                out[-1] |= 0x80
+                out += [0x80] * r.choice([1, 6, 14]) + [0x01]
+            return bytes(out)
+
+        def hstr(b, huff=False, lie=0):
+            return hint(len(b) + lie, 7, 0x80 if huff else 0) + b
+
+        def name():
+            return r.choice([b'x-a', b'accept', b'X-Up', b' ws', b'te', b'connection', b'content-length', b':path', b':status', b':method',
+                             b':weird', b'', b'cookie', b'host', b'trailer-x', b'upgrade', b'proxy-connection'])
+
+        def value():
+            return r.choice([b'1', b'', b'trailers', b'gzip', b'/', b'200', b'GET', b' v ', b'abc', b'0', b'3', b'a=b', b'HEAD', b'204'])
+
+        def literal():
+            fl = r.choice([0x00, 0x10])
+            if r.random() < 0.5:
+                return hint(r.randrange(1, 62), 4, fl) + hstr(value())
+            return bytes([fl]) + hstr(name()) + hstr(value())
+        if x == 's' and fr['t'] == 'HEADERS' or fr['t'] == 'PP':
+            base = [bytes([0x80 | r.choice([2, 3])]), bytes([0x80 | r.choice([6, 7])]), bytes([0x80 | r.choice([4, 5])]),
+                    hint(1, 4, 0x00) + hstr(b'example.com')]
+        else:
+            base = [bytes([0x80 | r.choice([8, 9, 10, 11, 13])])]
+        if fr.get('es') and r.random() < 0.3:
+            base = []                                           # a trailer block
+        for _ in range(r.choice([0, 1, 1, 2, 3])):
+            base.insert(r.randrange(0, len(base) + 1), r.choice([literal, literal, lambda: bytes([0x80 | r.randrange(1, 62)])])())
+        for _ in range(8):
+            parts = list(base)
+            k = r.random()
+            if k < 0.45:
+                pass                                            # well-formed octets; the list may still break the header rules
+            elif k < 0.55:
+                parts.insert(r.randrange(0, len(parts) + 1), b'\x80')                       # index 0
+            elif k < 0.65:
+                parts.insert(r.randrange(0, len(parts) + 1), hint(r.choice([5000, 70000]), 7, 0x80))   # beyond both tables
+            elif k < 0.75:
+                parts.insert(r.randrange(0, len(parts) + 1), hint(r.randrange(1, 62), 7, 0x80, overlong=True))
+            elif k < 0.85:
+                parts.append(bytes([0x00]) + hstr(b'x-cut', lie=r.choice([1, 5, 200])) + b'')   # a string longer than the block
+            elif k < 0.95:
+                parts.append(bytes([0x00]) + hstr(b'x-h') + hstr(bytes(r.randrange(256) for _ in range(r.choice([1, 2, 5]))), huff=True))
+            else:
+                parts = [b''.join(parts)[:r.randrange(0, max(1, len(b''.join(parts))))]]         # cut anywhere
+            blk = b''.join(parts)
+            try:
+                import hpack
+                hs = hpack.Decoder(max_header_list_size=1 << 20).decode(blk, raw=True)
+                if any(not all(32 <= c < 127 for c in h[0] + h[1]) for h in hs):
+                    continue                                    # keep the logged text printable
+                hx = [absn.tok(h[0], h[1], 'N' if isinstance(h, hpack.NeverIndexedHeaderTuple) else 't') for h in hs]
+                ok = True
+            except Exception:
+                hx, ok = [], False
+            out = dict(fr, h='x', hx=hx, blk='ok' if ok else 'bad', bx=blk.hex(), tsu=[])
+            out.pop('frag', None)
+            return out
+        return fr
+
     # ------------------------------------------------------------ one trace
     def run(self, length):
         r = self.rng
@@ -747,6 +828,9 @@ class G:
                 else:
                     k = 1 if r.random() < 0.8 else r.choice([2, 3])
                     fs = [self.gen_frame(x) for _ in range(k)]
+                    pf = {'headers': 0.3, 'raw': 0.15}.get(self.flavour, 0.06)
+                    fs = [self.fuzz_block(x, fr) if fr.get('t') in ('HEADERS', 'PP') and fr.get('blk') == 'ok' and 'h' in fr
+                          and r.random() < pf else fr for fr in fs]
                     if self.lost:
                         # the code stopped decoding at a connection error while the harness peer's HPACK encoder went on:
                         # what a later block decodes to is unknown, so no block whose verdict depends on its content
